@@ -59,8 +59,6 @@ def correspond(ctx):
     keys = G.standard_keys(bdir)
     quick = ctx["tier"] == "quick"
     J = G.dumps
-
-    vlib.log('c04 stage 0')
     # ---- 1. jose encrypts (all wrap x enc x zip x aad), the recipient key decrypts in jose and on the model
     req, meta = [], []
     pts = [b"", b"x", b"0123456789abcde", b"0123456789abcdef", b"0123456789abcdefg", bytes(range(256)) * 17]
@@ -115,8 +113,6 @@ def correspond(ctx):
         if case.startswith("jwedec") and impl == "ERR" and model.startswith("OK"):
             return ("rfc7516-token-rejected", "jose rejects a JWE that the independent implementation decrypts")
         return None
-
-    vlib.log('c04 stage 1')
     # ---- 2. bit-identity: re-encrypt on the model with jose's CEK and IV (no zip), compare ciphertext and tag
     menc_cases = []
     for tok, (wrap, enc, zip_, aad, key, pt) in toks:
@@ -142,8 +138,6 @@ def correspond(ctx):
                               "given the same CEK and IV the independent implementation computes a different ciphertext/tag",
                               {"case": c, "jose": {"ciphertext": tok["ciphertext"][:80], "tag": tok["tag"]}, "model": o[:300]})
         dist["bit-identity re-encryptions on the model"] = len(menc_cases)
-
-    vlib.log('c04 stage 2')
     # ---- 3. model encrypts, jose decrypts (dir; A128KW via model key wrap)
     m2j = []
     for enc in ENCS:
@@ -173,8 +167,6 @@ def correspond(ctx):
                 rep.violation("model-token-rejected:" + json.loads(dc.split("\t")[1])["protected"][:12],
                               "a JWE produced by the independent implementation does not decrypt in jose: " + o[:60], {"case": dc, "implementation": o})
         dist["model-produced tokens decrypted by jose"] = len(dcases)
-
-    vlib.log('c04 stage 3')
     # ---- 4. RFC 7520 section 5 vectors
     vec = load_vectors()
     vcases = []
@@ -196,8 +188,6 @@ def correspond(ctx):
     sym_vec = [c for c, n, k in vcases if ('"kty":"oct"' in c.split("\t")[3] or c.split("\t")[3].startswith('"'))
                and not (quick and n.startswith("rfc7520_5.3"))]      # 5.3 is PBES2 with 8192 iterations: thorough tier only on the model
     dist["RFC 7520 section 5 vectors"] = len(vcases)
-
-    vlib.log('c04 stage 4')
     # ---- 5. several recipients and re-wrapping histories
     hist = []
     for _ in range(6 if quick else 60):
@@ -231,20 +221,17 @@ def correspond(ctx):
             expected[dc] = "OK " + (pt.hex() or "-")
             sym_cases.append(dc)
     dist["two-recipient and rewrap histories"] = len(hist)
-
-    vlib.log('c04 stage 5')
     st = runner.standard(ctx, sym_cases + sym_vec, oracle, lambda c, o: o.startswith("OK"), on_disagree=on_disagree,
                          rule="jose_jwe_enc over key-management x content-encryption x zip x aad x plaintext lengths (0, 1, 15, 16, 17, 4352[, 70000]) with parameters in protected or split headers; every recipient key decrypts in jose AND on the independent model; ciphertext and tag bit-identical to the model's re-encryption under the same CEK and IV; model-produced tokens decrypt in jose; RFC 7520 section 5 examples; two-recipient tokens, a foreign key, and re-wrapping of a recovered CEK to a third recipient",
                          dist=dist)
-    vlib.log('c04 stage 6')
     # ---- public-key recipients: jose decrypts (oracle); a sample also on the BigZ model
     impl = G.harness(bdir, pk_cases)
     for c, o in zip(pk_cases, impl):
         v = oracle(c, o)
         if v:
             rep.violation(v[0], v[1], {"case": c, "implementation": o})
-    sample = [c for c in pk_cases if "ECDH-ES" in G.unb64(json.loads(c.split("\t")[1])["protected"]).decode(errors="replace") or "ECDH" in c][:4 if quick else 40]
-    rsa_sample = [c for c in pk_cases if "RSA" in c.split("\t")[1] or '"kty":"RSA"' in c][:3 if quick else 30]
+    sample = [c for c in pk_cases if json.loads(c.split("\t")[3]).get("kty") == "EC"][:4 if quick else 40]
+    rsa_sample = [c for c in pk_cases if json.loads(c.split("\t")[3]).get("kty") == "RSA" and "d" in json.loads(c.split("\t")[3])][:3 if quick else 30]
     lines, wants = [], []
     for c in sample:
         f = c.split("\t")
